@@ -1196,14 +1196,31 @@ func (w *world) lowerLatest(t *rapid.T) {
 	cons := &xibctmtypes.ConsensusState{Timestamp: rec.Time, Root: rec.Root, NextValidatorsHash: rec.NextValsHash}
 	kit.Must(w.c.App.XIBCKeeper.ClientKeeper.UpgradeClient(ctx, w.name, &cs, cons), "UpgradeClient")
 	w.m.Latest = l
+	w.observeProcessed(ctx, l)
 	w.r.Label("gov-upgrade-lowered-latest")
 	w.log = append(w.log, stepLog{"op": "govUpgradeLowerLatest", "to": l.String()})
 	w.checkSync(t, w.at(w.now))
 }
 
+// observeProcessed copies the processed time the store holds for height h into the model. It is used after
+// UpgradeClient only: an upgrade is not an operation C07 speaks about (C18 does), it merely brings the
+// client into states from which C07's clauses are then checked, so the model follows whatever the
+// upgrade recorded instead of predicting it.
+func (w *world) observeProcessed(ctx sdk.Context, h hkey) {
+	rec := w.m.Cons[h]
+	if rec == nil {
+		return
+	}
+	p, ok := toMap(w.dump(ctx))[processedKey(h)]
+	rec.HasProcessed = ok
+	rec.Processed = 0
+	if ok {
+		rec.Processed = binary.BigEndian.Uint64(p)
+	}
+}
+
 // revive replaces, the way an UpgradeClient proposal does, an expired client's state by one at a fresh,
-// not yet stored block of the counterparty. (The Tendermint UpgradeState writes no processed time, so
-// the model records the new height as never processed.)
+// not yet stored block of the counterparty.
 func (w *world) revive(t *rapid.T) {
 	lr := w.m.Cons[w.m.Latest]
 	if lr == nil || !w.m.expiredAt(lr.Time, w.now) {
@@ -1228,6 +1245,7 @@ func (w *world) revive(t *rapid.T) {
 	kit.Must(w.c.App.XIBCKeeper.ClientKeeper.UpgradeClient(ctx, w.name, &cs, cons), "UpgradeClient")
 	w.m.Latest = h
 	w.m.Cons[h] = &consRec{Time: b.Time, Root: b.AppHash, NextValsHash: b.NextVals.Hash()}
+	w.observeProcessed(ctx, h)
 	w.r.Label("gov-upgrade-revived-expired-client")
 	w.log = append(w.log, stepLog{"op": "govUpgradeRevive", "to": h.String(), "blockTime": off(b.Time), "now": off(w.now)})
 	w.checkSync(t, w.at(w.now))
